@@ -1,9 +1,7 @@
 (** C14 — Parser operations transform the remainder exactly like the string functions.
     Statements only.
 
-    NOT YET PROVED: the split_terminator / rsplit_terminator protocols as theorems about
-    whole iterations (their single steps are covered by [C14_op_remainder_eq]; the
-    iterations by the correspondence run against str::split), parse_* operations. *)
+    NOT YET PROVED: parse_* operations inside the Parser record (their frame is proved in C12). *)
 From KV Require Import Base.Prelude Model.Search Spec.Search Spec.Split Model.Parser Proofs.ParserProofs.
 
 (** strip / trim / trim-matches / find-skip / split-once: the operation leaves the remainder
@@ -26,6 +24,18 @@ Theorem C14_rsplit_protocol : forall d, d <> [] -> forall s ps, rsplit_rel d s p
   map event_of (run_ops p (repeat (ORSplit d) (length ps + 1))) = map EvPiece ps ++ [EvErr ESplitExhausted].
 Proof. exact rsplit_protocol. Qed.
 
+(** split_terminator / rsplit_terminator yield each piece that is followed (preceded) by a
+    delimiter and then fail: SplitExhausted if the input ended (began) with the delimiter,
+    DelimiterNotFound otherwise *)
+Theorem C14_split_terminator_protocol : forall d, d <> [] -> forall s ps, split_rel d s ps ->
+  forall p n, p_str p = s -> p_yls p = false -> (length ps <= n)%nat ->
+  map event_of (run_ops p (repeat (OSplitTerminator d) n)) = term_events ps.
+Proof. exact split_terminator_protocol. Qed.
+Theorem C14_rsplit_terminator_protocol : forall d, d <> [] -> forall s ps, rsplit_rel d s ps ->
+  forall p n, p_str p = s -> p_yls p = false -> (length ps <= n)%nat ->
+  map event_of (run_ops p (repeat (ORSplitTerminator d) n)) = term_events ps.
+Proof. exact rsplit_terminator_protocol. Qed.
+
 (** interleaving with other operations cannot disturb the protocols: only the split family
     touches yielded_last_split *)
 Theorem C14_flag_only_set_by_split : forall p o v q,
@@ -35,4 +45,6 @@ Proof. exact flag_only_set_by_split. Qed.
 Print Assumptions C14_op_remainder_eq.
 Print Assumptions C14_split_protocol.
 Print Assumptions C14_rsplit_protocol.
+Print Assumptions C14_split_terminator_protocol.
+Print Assumptions C14_rsplit_terminator_protocol.
 Print Assumptions C14_flag_only_set_by_split.
